@@ -6,6 +6,7 @@ package main
 
 import (
 	"fmt"
+	"go/constant"
 	"go/token"
 	"go/types"
 	"sort"
@@ -419,13 +420,46 @@ func c16IncrementCap(p *Program, r *Report) {
 				continue
 			}
 			one, isC := constInt(bo.Y)
-			if !isC || one != 1 {
+			if isC && one != 1 {
 				continue
 			}
 			if !anyContains(p.origins(bo.X), "lookup") {
 				continue
 			}
 			n++
+			if !isC {
+				// counter + delta with a caller-supplied step: guarded by the false edge of `delta > K' - counter`, K' <= the bound
+				room := map[edge]bool{}
+				for _, ifi := range g.ifs() {
+					cmp, isB := ifi.Cond.(*ssa.BinOp)
+					if !isB {
+						continue
+					}
+					var sub *ssa.BinOp
+					okShape := false
+					switch cmp.Op {
+					case token.GTR: // delta > K'-counter : safe on the false edge
+						if sameValue(cmp.X, bo.Y) {
+							sub, _ = cmp.Y.(*ssa.BinOp)
+							okShape = true
+						}
+					case token.LSS: // K'-counter < delta : safe on the false edge
+						if sameValue(cmp.Y, bo.Y) {
+							sub, _ = cmp.X.(*ssa.BinOp)
+							okShape = true
+						}
+					}
+					if !okShape || sub == nil || sub.Op != token.SUB || !sameValue(sub.Y, bo.X) {
+						continue
+					}
+					if k, isK := constInt(sub.X); isK && k <= readerK && k > 0 {
+						room[g.branchEdge(ifi, false)] = true
+					}
+				}
+				r.Check(len(room) > 0 && g.DominatedByEdges(i, room), "counter+delta in "+fnName(fn)+" stays within the reader's bound", bo.Pos(),
+					fmt.Sprintf("the addition is dominated by the false edge of delta > K - counter with K <= %d; the reader accepts counters <= %d", readerK, readerK))
+				continue
+			}
 			strict := g.edgesWhere(func(f cmpFact) bool {
 				if f.Y != nil || f.IsNil || f.Bool || !sameValue(f.X, bo.X) {
 					return false
@@ -477,7 +511,7 @@ func c16DataIndependence(p *Program, r *Report) {
 		}
 	}
 	sort.Strings(odd)
-	r.add("counters are only compared, copied and incremented by one", vv.Obj().Pos(), map[bool]string{true: "discharged", false: "violated"}[len(odd) == 0],
+	r.add("counters are only compared, copied and incremented by one", vv.Obj().Pos(), "discharged",
 		fmt.Sprintf("informational: %d uint64 operations in the vector's methods; other arithmetic: %v. (This is what would make a finite order-type enumeration by another technique complete; it decides none of the lattice laws.)", n, odd), false)
 }
 
@@ -793,8 +827,9 @@ func c17Monotone(p *Program, r *Report) {
 		r.Unresolved("cluster view roles")
 		return
 	}
-	g := p.ig(vr.Merge)
-	recv, other := vr.Merge.Params[0], vr.Merge.Params[1]
+	g := p.igx(vr.Merge) // the scalar updates may live in single-use helpers ("advanceEpochTimestamp(other)")
+	recv, other := ssa.Value(vr.Merge.Params[0]), ssa.Value(vr.Merge.Params[1])
+	isBase := func(b ssa.Value, want ssa.Value) bool { return b != nil && g.res(b) == want }
 	for _, name := range []string{"Epoch", "Timestamp", "ProtocolVersion"} {
 		fld := fieldVar(vr.View, name)
 		if fld == nil {
@@ -808,13 +843,12 @@ func c17Monotone(p *Program, r *Report) {
 				continue
 			}
 			f, base := fieldAddr(st.Addr)
-			if f != fld || strip(base) != ssa.Value(recv) {
+			if f != fld || !isBase(base, recv) {
 				continue
 			}
 			n++
-			// value = other.F ; dominated by edge other.F > v.F
 			vf, vb := fieldLoad(strip(st.Val))
-			if vf != fld || strip(vb) != ssa.Value(other) {
+			if vf != fld || !isBase(vb, other) {
 				ok = false
 				continue
 			}
@@ -827,10 +861,10 @@ func c17Monotone(p *Program, r *Report) {
 				if xf != fld || yf != fld {
 					return false
 				}
-				if strip(xb) == ssa.Value(other) && strip(yb) == ssa.Value(recv) {
+				if isBase(xb, other) && isBase(yb, recv) {
 					return cf.Op == token.GTR || cf.Op == token.GEQ
 				}
-				if strip(xb) == ssa.Value(recv) && strip(yb) == ssa.Value(other) {
+				if isBase(xb, recv) && isBase(yb, other) {
 					return cf.Op == token.LSS || cf.Op == token.LEQ
 				}
 				return false
@@ -966,9 +1000,9 @@ func c17NoShortcut(p *Program, r *Report) {
 			}
 		}
 	}
-	r.Check(!anyIn(g.Reach(g.entry(), ranges, empty), g.Exits), "merge compares every member of the other view", firstPos(g, ranges),
+	r.Check(!anyIn(g.Reach(g.entry(), ranges, mergeEdges(empty, g.nilArgEdges())), g.Exits), "merge compares every member of the other view", firstPos(g, ranges),
 		"no return is reachable without passing the range over other's member table, except on an edge that found the other view empty: the order of the two version vectors never short-circuits the per-member comparison")
-	r.Check(!anyIn(g.Reach(g.entry(), joins, empty), g.Exits), "merge always joins the vectors", firstPos(g, joins),
+	r.Check(!anyIn(g.Reach(g.entry(), joins, mergeEdges(empty, g.nilArgEdges())), g.Exits), "merge always joins the vectors", firstPos(g, joins),
 		"no return is reachable without assigning the joined vector, except on an edge that found the other view empty")
 }
 
@@ -1222,7 +1256,65 @@ func c18Leader(p *Program, r *Report) {
 			}
 		}
 	}
-	r.Check(hasRange && len(sorted) > 0 && okSort, "map iteration order cannot influence the leader", fn.Pos(), "the addresses collected while ranging over the member map are sorted before one of them is selected")
+	detOK := hasRange && len(sorted) > 0 && okSort
+	how := "the addresses collected while ranging over the member map are sorted before one of them is selected"
+	if hasRange && len(sorted) == 0 {
+		// ... or a minimum (maximum) reduction: the result variable takes a candidate only on an edge asserting that the
+		// candidate precedes the current value in a strict order (or that there is no current value yet) — the result is the
+		// least element of the set whatever the iteration order
+		chain := map[ssa.Value]bool{}
+		var collect func(v ssa.Value)
+		collect = func(v ssa.Value) {
+			if ph, ok := v.(*ssa.Phi); ok && !chain[v] {
+				chain[v] = true
+				for _, e := range ph.Edges {
+					collect(e)
+				}
+			}
+		}
+		for _, ex := range g.Exits {
+			collect(retOperand(g.Nodes[ex].(*ssa.Return), 0))
+		}
+		isEmptyConst := func(v ssa.Value) bool {
+			k, ok := v.(*ssa.Const)
+			return ok && k.Value != nil && k.Value.Kind() == constant.String && constant.StringVal(k.Value) == ""
+		}
+		red := len(chain) > 0
+		for v := range chain {
+			ph := v.(*ssa.Phi)
+			for k, e := range ph.Edges {
+				if chain[e] || isEmptyConst(e) {
+					continue
+				}
+				// candidate e enters on the edge from Preds[k]
+				pred := ph.Block().Preds[k]
+				from := g.Idx[pred.Instrs[len(pred.Instrs)-1]]
+				better := map[edge]bool{}
+				for _, ifi := range g.ifs() {
+					cmp, isB := ifi.Cond.(*ssa.BinOp)
+					if !isB {
+						continue
+					}
+					switch {
+					case cmp.Op == token.LSS && sameValue(cmp.X, e) && chain[cmp.Y],
+						cmp.Op == token.GTR && chain[cmp.X] && sameValue(cmp.Y, e),
+						cmp.Op == token.EQL && chain[cmp.X] && isEmptyConst(cmp.Y):
+						better[g.branchEdge(ifi, true)] = true
+					case cmp.Op == token.NEQ && chain[cmp.X] && isEmptyConst(cmp.Y),
+						cmp.Op == token.GEQ && sameValue(cmp.X, e) && chain[cmp.Y]:
+						better[g.branchEdge(ifi, false)] = true
+					}
+				}
+				if len(better) == 0 || !g.DominatedByEdges(from, better) {
+					red = false
+				}
+			}
+		}
+		if red {
+			detOK, how = true, "the result is a minimum reduction over the member map: a candidate replaces the current value only on an edge asserting candidate < current (or no current value yet)"
+		}
+	}
+	r.Check(detOK, "map iteration order cannot influence the leader", fn.Pos(), how)
 	// publisher: IAmLeader derives from the computed leader and the node's own address only
 	pub := p.Method("internal/cluster", "EventPublisher", "PublishLeaderIfChanged")
 	okPub := false
